@@ -43,6 +43,21 @@ CONTRACT_END_DCHUNK
 ;
 
 
+
+/* codec hooks init / close (stand-ins; zstd: create/free the zstd contexts, nocomp: nothing): they touch
+ * only the four opaque codec context pointers and the error state */
+bool verif_cinit(zckCtx *zck, zckComp *comp)
+V_REQUIRES(__CPROVER_rw_ok(zck, sizeof(*zck)) && comp == &zck->comp)
+V_ASSIGNS(zck->comp.cctx, zck->comp.dctx, zck->comp.cdict_ctx, zck->comp.ddict_ctx, zck->error_state)
+V_ENSURES(!__CPROVER_return_value || V_OLD(zck->error_state) == 0)
+V_ENSURES(__CPROVER_return_value ? zck->error_state == V_OLD(zck->error_state) : zck->error_state > 0)
+;
+bool verif_cclose(zckCtx *zck, zckComp *comp)
+V_REQUIRES(__CPROVER_rw_ok(zck, sizeof(*zck)) && comp == &zck->comp)
+V_ASSIGNS(zck->comp.cctx, zck->comp.dctx, zck->comp.cdict_ctx, zck->comp.ddict_ctx)
+V_ENSURES(__CPROVER_return_value)
+;
+
 /* ---- reader state invariant ------------------------------------------------------------------
  * RD_WF(z): what holds between any two API calls on a context opened for reading, phrased over a
  * chunk list of at most three entries (dictionary entry, one inner entry, last entry) — CBMC
@@ -66,7 +81,7 @@ CONTRACT_END_DCHUNK
      (g_n3 == NULL || (CHUNK_WF1(z, g_n3) && g_n3->start == g_n2->start + g_n2->comp_length && g_n3->next == NULL)))))
 #define RD_IN_LIST(z, p) ((p) == NULL || (p) == g_n1 || (p) == g_n2 || (p) == g_n3)
 #define RD_VALID_TARGETS(zck) g_n1 != NULL: g_n1->valid; g_n2 != NULL: g_n2->valid; g_n3 != NULL: g_n3->valid
-#define RD_HOOKS(z) ((z)->comp.decompress == verif_decompress && (z)->comp.end_dchunk == verif_end_dchunk && ((z)->comp.type == ZCK_COMP_NONE || (z)->comp.type == ZCK_COMP_ZSTD))
+#define RD_HOOKS(z) ((z)->comp.decompress == verif_decompress && (z)->comp.end_dchunk == verif_end_dchunk && (z)->comp.init == verif_cinit && (z)->comp.close == verif_cclose && ((z)->comp.type == ZCK_COMP_NONE || (z)->comp.type == ZCK_COMP_ZSTD))
 #define RD_CUR(z) ((z)->comp.data_idx)
 #define RD_F(p, f) ((p) == g_n1 ? g_n1->f : (p) == g_n2 ? g_n2->f : g_n3->f)
 #define RD_CUR_F(z, f) RD_F(RD_CUR(z), f)
@@ -137,19 +152,60 @@ V_ENSURES(!__CPROVER_return_value || (RD_HOOKS(zck) && RD_STATE_WF(zck))) /*@C14
 V_ENSURES(!__CPROVER_return_value || g_hu_hash != &zck->check_full_hash || (g_hu_final == V_OLD(g_hu_final) && (zck->has_uncompressed_source != 0 || g_hu_total - V_OLD(g_hu_total) == g_rd_bytes[G_IX(zck->fd)] - V_OLD(g_rd_bytes[G_IX(zck->fd)])))) /*@C02.import_dict.every_byte_read_is_fed_to_the_data_checksum*/
 ;
 
+/* C14: the state in which comp_read must be entered by a random-access request for chunk g_canon_idx:
+ * nothing left over from earlier requests (no buffered stored or decoded bytes, position inside the
+ * chunk 0, end-of-data flag clear, running chunk hash empty), the descriptor at the first stored
+ * byte of the chunk, the dictionary loaded if the file has one.  Checked at the call site only
+ * in units that set g_canon_on. */
+#define RD_CANON(z, ix) ((z)->comp.data == NULL && (z)->comp.data_size == 0 && (z)->comp.data_loc == 0 && (z)->comp.data_eof == 0 && \
+    (z)->comp.dc_data_size == (z)->comp.dc_data_loc && (z)->comp.data_idx == (ix) && (z)->comp.started != 0 && \
+    ((z)->check_chunk_hash.ctx == NULL || g_hu_hash != &(z)->check_chunk_hash || g_hu_total == 0) && \
+    g_fpos[G_IX((z)->fd)] == (g_off_t)(z)->data_offset + (g_off_t)RD_F(ix, start) && (g_n1->length == 0 || (z)->comp.dict != NULL))
+
 /* comp_read: the reader's main loop.  Ghost accounting (C02): the whole-data hash is fed exactly the
  * bytes read from the descriptor in this call (unless the file carries the uncompressed-source flag, for
  * which the format defines no data checksum); the running chunk hash is fed exactly the stored bytes
  * of the current chunk (part of RD_WF).  C15/C12: no success value once an error arose. */
 ssize_t comp_read(zckCtx *zck, char *dst, size_t dst_size, bool use_dict)
 V_REQUIRES(__CPROVER_rw_ok(zck, sizeof(*zck)) && RD_WF(zck))
-V_REQUIRES(dst == NULL || dst_size == 0 || __CPROVER_w_ok(dst, dst_size))
+V_REQUIRES(dst != NULL && (dst_size == 0 || __CPROVER_w_ok(dst, dst_size)))   /* every caller passes a buffer (zck_read checks, import_dict allocates) */
+V_REQUIRES(!g_canon_on || RD_CANON(zck, g_canon_idx)) /*@C14.comp_read.random_access_starts_from_the_canonical_state*/
 V_ASSIGNS(zck->comp, zck->check_chunk_hash.type, zck->check_chunk_hash.ctx, zck->error_state, g_hu_total, g_hu_seen, g_hu_ptr, g_hu_final, g_hu_inits, g_fin_val, g_fin_total, g_fin_seen, g_fin_ptr, g_fpos, g_rd_bytes, g_io_failed, g_last_read, g_watch_seen, g_watch_val; dst != NULL && dst_size > 0: __CPROVER_object_upto(dst, dst_size); RD_VALID_TARGETS(zck))
 V_ENSURES(__CPROVER_return_value >= -2 && (__CPROVER_return_value < 0 || (size_t)__CPROVER_return_value <= dst_size)) /*@C03,C02.comp_read.never_more_than_asked*/
 V_ENSURES(__CPROVER_return_value < 0 || (V_OLD(zck->error_state) == 0 && zck->error_state == 0 && zck->mode == ZCK_MODE_READ)) /*@C15,C02,C12.comp_read.no_success_once_an_error_arose*/
 V_ENSURES(__CPROVER_return_value < 0 || (RD_HOOKS(zck) && RD_STATE_WF(zck))) /*@C02,C14,C03.comp_read.keeps_reader_invariant*/
 V_ENSURES(__CPROVER_return_value < 0 || g_hu_hash != &zck->check_full_hash || zck->has_uncompressed_source != 0 || g_hu_total - V_OLD(g_hu_total) == g_rd_bytes[G_IX(zck->fd)] - V_OLD(g_rd_bytes[G_IX(zck->fd)])) /*@C02.comp_read.every_byte_read_is_fed_to_the_data_checksum*/
 V_ENSURES(__CPROVER_return_value < 0 || g_hu_hash != &zck->check_full_hash || g_hu_final == V_OLD(g_hu_final)) /*@C02.comp_read.data_checksum_not_finalised_by_reads*/
+V_ENSURES(__CPROVER_return_value < 0 || !use_dict || dst_size == 0 || g_n1->length == 0 || zck->comp.dict != NULL) /*@C14.comp_read.dictionary_loaded_before_any_dictionary_read*/
+;
+
+/* ---- random access (C14) --------------------------------------------------------------------- */
+/* API-level invariant on top of RD_WF: the data section starts right after the header, and a reader
+ * that has not loaded the file's dictionary yet has not consumed anything */
+#define RD_API(z) ((z)->data_offset == (z)->lead_size + (z)->header_length && (z)->lead_size + (z)->header_length >= (z)->lead_size && \
+    (g_n1->length == 0 || (z)->comp.dict != NULL || ((z)->comp.data_idx == NULL && (z)->comp.data_loc == 0 && (z)->comp.data_size == 0 && (z)->comp.dc_data_size == (z)->comp.dc_data_loc)))
+
+ssize_t zck_get_chunk_data(zckChunk *idx, char *dst, size_t dst_size)
+V_REQUIRES(idx != NULL && (idx == g_n1 || idx == g_n2 || idx == g_n3) && g_n1 != NULL && __CPROVER_rw_ok(g_n1->zck, sizeof(zckCtx)) && idx->zck == g_n1->zck)
+V_REQUIRES(RD_WF(g_n1->zck) && RD_API(g_n1->zck))
+V_REQUIRES(dst == NULL || dst_size == 0 || __CPROVER_w_ok(dst, dst_size))
+V_ASSIGNS(g_n1->zck->comp, g_n1->zck->check_chunk_hash.type, g_n1->zck->check_chunk_hash.ctx, g_n1->zck->error_state, g_hu_total, g_hu_seen, g_hu_ptr, g_hu_final, g_hu_inits, g_fin_val, g_fin_total, g_fin_seen, g_fin_ptr, g_fpos, g_rd_bytes, g_io_failed, g_last_read, g_watch_seen, g_watch_val; dst != NULL && dst_size > 0: __CPROVER_object_upto(dst, dst_size); RD_VALID_TARGETS(zck))
+V_FREES(g_n1->zck->comp.data, g_n1->zck->comp.dc_data, g_n1->zck->check_chunk_hash.ctx)
+V_ENSURES(__CPROVER_return_value >= -2 && (__CPROVER_return_value < 0 || (size_t)__CPROVER_return_value <= dst_size)) /*@C03,C14.zck_get_chunk_data.never_more_than_asked*/
+V_ENSURES(__CPROVER_return_value < 0 || (size_t)__CPROVER_return_value <= idx->length) /*@C14.zck_get_chunk_data.at_most_the_declared_size*/
+V_ENSURES(__CPROVER_return_value <= 0 || (V_OLD(g_n1->zck->error_state) == 0 && g_n1->zck->error_state == 0)) /*@C14,C12.zck_get_chunk_data.no_success_once_an_error_arose*/
+;
+
+/* stored (compressed) bytes of one chunk: exactly the bytes of the chunk's extent, never bytes of the
+ * following chunk, whatever the buffer size; decoder state untouched */
+ssize_t zck_get_chunk_comp_data(zckChunk *idx, char *dst, size_t dst_size)
+V_REQUIRES(idx != NULL && (idx == g_n1 || idx == g_n2 || idx == g_n3) && g_n1 != NULL && __CPROVER_rw_ok(g_n1->zck, sizeof(zckCtx)) && idx->zck == g_n1->zck)
+V_REQUIRES(RD_LIST_WF(g_n1->zck) && RD_API(g_n1->zck))
+V_REQUIRES(dst == NULL || dst_size == 0 || __CPROVER_w_ok(dst, dst_size))
+V_ASSIGNS(g_n1->zck->error_state, g_fpos, g_rd_bytes, g_io_failed, g_last_read, g_watch_seen, g_watch_val; dst != NULL && dst_size > 0: __CPROVER_object_upto(dst, dst_size))
+V_ENSURES(__CPROVER_return_value >= -1 && (__CPROVER_return_value < 0 || ((size_t)__CPROVER_return_value <= dst_size && (size_t)__CPROVER_return_value <= idx->comp_length))) /*@C14.zck_get_chunk_comp_data.never_beyond_the_chunk*/
+V_ENSURES(__CPROVER_return_value <= 0 || g_fpos[G_IX(g_n1->zck->fd)] == (g_off_t)g_n1->zck->data_offset + (g_off_t)idx->start + (g_off_t)__CPROVER_return_value) /*@C14.zck_get_chunk_comp_data.reads_from_the_chunk_start*/
+V_ENSURES(__CPROVER_return_value < 0 || (V_OLD(g_n1->zck->error_state) == 0 && g_n1->zck->error_state == 0)) /*@C12.zck_get_chunk_comp_data.no_success_once_an_error_arose*/
 ;
 
 /* C15/C02: the end of a chunk is accepted (>= 1) only after the bytes fed to the chunk hash since its
